@@ -227,7 +227,22 @@ def generate(repo):
     same('put_octets / get_octets status test', [st.test, st2.test])
     acc = expect('put_octets: recv_response call', calls(f, 'recv_response'), 1)[0]
     out.append(kernel('gen_c06_put_acceptable', acc.args[1], []))
+    # which connection a request uses: `if not self.socket: connect(default); release = True / else: release = False`,
+    # `finally: if self.release_connection: self.close()` (Model/Snep.v api_step)
+    for name in ('SnepClient.get_octets', 'SnepClient.put_octets'):
+        g = find(scl, name)
+        top = expect(name + ': `if not self.socket`', [x for x in g.body if isinstance(x, ast.If) and ast.unparse(x.test) == 'not self.socket'], 1)[0]
+        if [ast.unparse(x) for x in top.orelse] != ['self.release_connection = False']:
+            raise Unsupported(name + ': release_connection is not cleared for an existing connection')
+        tr = expect(name + ': connect try', [x for x in top.body if isinstance(x, ast.Try)], 1)[0]
+        if ast.unparse(tr.body[0]) != "self.connect('urn:nfc:sn:snep')" or [ast.unparse(x) for x in tr.orelse] != ['self.release_connection = True']:
+            raise Unsupported(name + ': one-shot connect changed')
+        fin = expect(name + ': request try', [x for x in g.body if isinstance(x, ast.Try)], 1)[0]
+        if [ast.unparse(x) for x in fin.finalbody] != ['if self.release_connection:\n    self.close()']:
+            raise Unsupported(name + ': finally clause changed')
     f = find(scl, 'SnepClient.connect')
+    if ast.unparse(f.body[1 if isinstance(f.body[0], ast.Expr) and isinstance(f.body[0].value, ast.Constant) else 0]) != 'self.close()':
+        raise Unsupported('SnepClient.connect does not close an open connection first')
     out.append('Definition gen_c06_opt_snep_client : Z := %d.\n' % opt[sockopt('SnepClient.connect', f, 'self.send_miu')])
 
     # ================= snep/server.py: _serve
